@@ -89,8 +89,38 @@ static void handler(const Line& t, Out& o) {
     regs[(long)t.at(2)] = std::move(p);
     o.R(1); break; }
   case 6: { get(t.at(1)).reset(); o.R(1); break; }
-  case 7: { // copy r into r2
-    std::unique_ptr<vo_t> p(new vo_t(get(t.at(1))));
+  case 7: { // copy r into r2 by one of four means (mode: 0 copy ctor, 1 copy-assign onto the sketch already in r2, 2 move ctor from a
+            // temporary copy, 3 move-assign of a temporary copy onto the sketch already in r2); a missing target is a fresh k = 3 sketch
+    vo_t& src = get(t.at(1));
+    int mode = t.size() > 3 ? (int)t.at(3) : 0;
+    long r2 = (long)t.at(2);
+    if ((mode == 1 || mode == 3) && regs.find(r2) == regs.end()) {
+      std::unique_ptr<vo_t> f(new vo_t(3)); f->update(77, 2.0); f->update(78, 3.0);
+      regs[r2] = std::move(f);
+    }
+    if (mode == 1) { if (regs[r2].get() != &src) *regs[r2] = src; }
+    else if (mode == 2) { vo_t tmp(src); std::unique_ptr<vo_t> p(new vo_t(std::move(tmp))); regs[r2] = std::move(p); }
+    else if (mode == 3) { vo_t tmp(src); *regs[r2] = std::move(tmp); }
+    else { std::unique_ptr<vo_t> p(new vo_t(src)); regs[r2] = std::move(p); }
+    o.R(1); break; }
+  case 17: { // copy union u into u2 by the same four means
+    vu_t& src = getu(t.at(1));
+    int mode = t.size() > 3 ? (int)t.at(3) : 0;
+    long u2 = (long)t.at(2);
+    if ((mode == 1 || mode == 3) && unions.find(u2) == unions.end()) {
+      std::unique_ptr<vu_t> f(new vu_t(5)); vo_t one(2); one.update(5, 1.0); f->update(one);
+      unions[u2] = std::move(f);
+    }
+    if (mode == 1) { if (unions[u2].get() != &src) *unions[u2] = src; }
+    else if (mode == 2) { vu_t tmp(src); std::unique_ptr<vu_t> p(new vu_t(std::move(tmp))); unions[u2] = std::move(p); }
+    else if (mode == 3) { vu_t tmp(src); *unions[u2] = std::move(tmp); }
+    else { std::unique_ptr<vu_t> p(new vu_t(src)); unions[u2] = std::move(p); }
+    o.R(1); break; }
+  case 20: { // as 11 (feedback cases: the model keeps no ghost log for them)
+    getu(t.at(1)).update(get(t.at(2)));
+    o.R(1); break; }
+  case 21: { // as 12
+    std::unique_ptr<vo_t> p(new vo_t(getu(t.at(1)).get_result()));
     regs[(long)t.at(2)] = std::move(p);
     o.R(1); break; }
   case 10: { // new union u max_k
